@@ -19,7 +19,8 @@ REMOVE_CALLERS = {
 
 def r1(run):
     callers = C.callers_of(run.facts, C.REMOVE)
-    run.floor("Store::remove call sites", len(callers), 4)
+    run.floor("Store::remove call sites in the GC worker", len([1 for (b, c) in callers if run.facts.enclosing_fn(b) == "xs::store::spawn_gc_worker"]), 1)
+    run.floor("Store::remove call sites", len(callers), 2)
     for (b, c) in callers:
         fn = run.facts.enclosing_fn(b)
         run.touch(b)
